@@ -10,8 +10,10 @@ import (
 	"time"
 	"unicode/utf8"
 
+	"github.com/pentops/j5/gen/j5/ext/v1/ext_j5pb"
 	"google.golang.org/protobuf/proto"
 	"google.golang.org/protobuf/reflect/protoreflect"
+	"google.golang.org/protobuf/types/descriptorpb"
 )
 
 // Random message generator (DESIGN §6 C01 "Tie").
@@ -409,6 +411,10 @@ func (g *mgen) single(fd protoreflect.FieldDescriptor, depth int, newVal func() 
 		case fnAnyPb:
 			g.fillAny(m, depth, true)
 		default:
+			if isFlattenField(fd) {
+				// a flattened object is part of its parent: it does not count towards the nesting limit
+				return protoreflect.ValueOfMessage(g.message(fd.Message(), depth))
+			}
 			return protoreflect.ValueOfMessage(g.message(fd.Message(), depth+1))
 		}
 		return v
@@ -435,6 +441,18 @@ func plainMessageField(fd protoreflect.FieldDescriptor) bool {
 	return true
 }
 
+func isFlattenField(fd protoreflect.FieldDescriptor) bool {
+	opts, ok := fd.Options().(*descriptorpb.FieldOptions)
+	if !ok || opts == nil {
+		return false
+	}
+	ext, ok := proto.GetExtension(opts, ext_j5pb.E_Field).(*ext_j5pb.FieldOptions)
+	if !ok || ext == nil {
+		return false
+	}
+	return ext.GetMessage().GetFlatten()
+}
+
 func (g *mgen) message(md protoreflect.MessageDescriptor, depth int) protoreflect.Message {
 	m := g.ts.newMessage(md)
 	fds := md.Fields()
@@ -457,7 +475,8 @@ func (g *mgen) message(md protoreflect.MessageDescriptor, depth int) protoreflec
 			if chosen[oo.Index()] != fd {
 				continue
 			}
-		} else if g.r.IntN(100) >= 55 {
+		} else if g.r.IntN(100) >= 55 && !(isFlattenField(fd) && g.r.IntN(100) < 70) {
+			// (flattened objects are kept more often: their properties belong to this object)
 			continue
 		}
 		if isAnyField(fd) && (g.noAny || depth >= g.maxDepth) {
